@@ -737,12 +737,11 @@ impl<'a> Iterator for TargetIter<'a, Annotation> {
             if let Some(selectoritem) = selectoritem {
                 match selectoritem.as_ref() {
                     Selector::AnnotationSelector(a_id, _) => {
-                        if self.iter.recurse_annotation {
-                            if self.history.contains(a_id) {
-                                continue;
-                            }
-                            self.history.push(*a_id);
+                        //(also without recursion: a complex selector can name an annotation twice)
+                        if self.history.contains(a_id) {
+                            continue;
                         }
+                        self.history.push(*a_id);
                         return Some(*a_id);
                     }
                     _ => continue,
